@@ -277,6 +277,8 @@ def token_level(ck, rng, thorough):
     alpha_big = [("num", "2"), ("name", "m"), ("op", "+"), ("op", "-"), ("op", "*"), ("op", "**"),
                  ("op", "("), ("op", ")"), ("other", "")]
     alpha_small = [("num", "2"), ("name", "m"), ("op", "-"), ("op", "/"), ("op", "**"), ("op", "("), ("op", ")")]
+    if not thorough:
+        alpha_small = alpha_small[1:]      # quick: 6 tokens (m - / ** ( )) up to length 5
     plans = [(alpha_big, 5 if thorough else 4), (alpha_small, 6 if thorough else 5)]
     seen = set()
     n_seq = 0
@@ -327,8 +329,8 @@ def token_level(ck, rng, thorough):
         trees += all_trees(4, leafset, BOPS, [])
         trees += rng.sample(all_trees(3, leafset, BOPS, ["neg", "pos"]), 6000)
     else:
-        trees += rng.sample(all_trees(3, leafset, BOPS, ["neg"]), 3000)
-        trees += rng.sample(all_trees(4, leafset, BOPS, []), 2500)
+        trees += rng.sample(all_trees(3, leafset, BOPS, ["neg"]), 1500)
+        trees += rng.sample(all_trees(4, leafset, BOPS, []), 1500)
     n_small = len(trees)
     leafpool = [("num", "2"), ("num", "3"), ("name", "m"), ("name", "s"), ("num", "10"), ("name", "kg"), ("num", "2.5")]
     for _ in range(4000 if thorough else 600):
@@ -347,11 +349,9 @@ def token_level(ck, rng, thorough):
             toks = render_cst(cst)
             want = show(strip(e))
             r = pint_build(toks + END)
-            add(f"KRender {'SMin' if style == 'min' else 'SFull'} {coq_expr(e)} "
-                f"{coq_list([coq_tok(t) for t in toks])} {coq_str(want)}",
-                {"stream": stream, "tree": e, "style": style, "tokens": toks})
-            add(f"KBuild {coq_list([coq_tok(t) for t in toks + END])} {coq_bres(r)}",
-                {"stream": stream, "tokens": toks + END, "pint": r})
+            add(f"KTree {'SMin' if style == 'min' else 'SFull'} {coq_expr(e)} "
+                f"{coq_list([coq_tok(t) for t in toks])} {coq_str(want)} {coq_bres(r)}",
+                {"stream": stream, "tree": e, "style": style, "tokens": toks + END, "pint": r})
             ck.case(key=("tree", style, show(e)), nontrivial=leaves(e) > 1,
                     sample={"expr": toks_text(toks), "pint_tree": r[1]} if leaves(e) >= 6 and len(ck.samples) < 5 else None)
             ck.count(f"{stream}:leaves={min(leaves(e), 5)}{'+' if leaves(e) >= 5 else ''}")
@@ -434,7 +434,7 @@ def run(ck):
     rng = random.Random(ck.seed)
     thorough = ck.tier == "thorough"
     ck.rule = ("token level: ALL token sequences over a 9-token alphabet up to length 4 (thorough 5) and over a "
-               "7-token alphabet up to length 5 (thorough 6), each + ENDMARKER; all Par-free expression trees with "
+               "6-token alphabet up to length 5 (thorough: 7 tokens up to length 6), each + ENDMARKER; all Par-free expression trees with "
                "<= 3 leaves over {2, m} x 9 operators, all with <= 2 leaves x unary +/- at every node, samples of "
                "3-leaf trees with unary minus and of 4-leaf trees (thorough: all of both: + all trees "
                "with 4 leaves and unary minus everywhere), random trees with 5..25 leaves, each rendered minimal and fully parenthesised; "
@@ -462,17 +462,25 @@ def run(ck):
     timing["no_execution_s"] = round(time.time() - t0, 1)
 
     t0 = time.time()
-    bad = ck.coq_mismatches("c07", HEADER, cases, RUN, shard=1500) if ok else None
+    from .common import NCPU
+    shard = max(400, min(2500, -(-len(cases) // max(1, NCPU))))
+    bad = ck.coq_mismatches("c07", HEADER, cases, RUN, shard=shard) if ok else None
     timing["token_level_model_s"] = round(time.time() - t0, 1)
     ck.extra["timing"] = timing
     ck.extra["model_vs_impl_cases"] = len(cases)
     ck.extra["model_vs_impl_disagreements"] = None if bad is None else len(bad)
-    seen = set()
-    for key, desc, rp in oracle_fail:
+    # report the smallest inputs first, at most 6 per class of violation (the counts are in the evidence)
+    seen, per_class = set(), {}
+    ck.extra["oracle_failures"] = {}
+    for key, desc, rp in sorted(oracle_fail, key=lambda x: (len(x[0]), x[0])):
         if key in seen:
             continue
         seen.add(key)
-        ck.violation(key, desc, rp)
+        cls = key.split(":", 1)[0]
+        ck.extra["oracle_failures"][cls] = ck.extra["oracle_failures"].get(cls, 0) + 1
+        per_class[cls] = per_class.get(cls, 0) + 1
+        if per_class[cls] <= 6 or ck._match_known(key) is not None:
+            ck.violation(key, desc, rp)
     if bad:
         first = meta[bad[0]]
         shown = ck.coq_show(HEADER, f"{RUN} ({cases[bad[0]]})")
